@@ -8,7 +8,8 @@ import time
 import hashlib
 
 VERIF = os.path.dirname(os.path.dirname(os.path.abspath(__file__)))
-EVIDENCE_DIR = os.path.join(VERIF, 'evidence')
+# developer runs against a deliberately broken tree (tools/seeded_eval.py) redirect their output
+EVIDENCE_DIR = os.environ.get('PCBVERIF_EVIDENCE_DIR') or os.path.join(VERIF, 'evidence')
 KNOWN_FILE = os.path.join(VERIF, 'known_findings.json')
 
 
